@@ -14,7 +14,7 @@ RUNS = {
     "C20": lambda seed, n: [["-seed", str(seed), "-n", str(n), "-x", "norevoke"]],
 }
 
-RULE = ("random histories over 12 cache configurations (default, minute precision, no cache, SK-only, shared LRU-2, SK LRU-1, IK SLRU-1, IK LFU-2, "
+RULE = ("random histories over 13 cache configurations (default, minute precision, no cache, SK-only, shared LRU-2, shared simple, SK LRU-1, IK SLRU-1, IK LFU-2, "
         "tinylfu, session cache 2, session cache 1 with expiry, no-cache+shared): 1-2 factories sharing one metastore, 1-3 partitions, encrypt/decrypt "
         "(25% with 1-2 injected faults: err / false duplicate / error-after-write on any boundary call), clock advances drawn from boundary values "
         "(+-1ns around RCI, expiry, precision), revocation of latest/older IK/SK, session close/reopen, factory restart, final decrypt of every record "
@@ -39,6 +39,14 @@ def main(tier, seed, replay):
     prop = "C03"
     ck = Check(prop, tier, seed)
     ck.coq_theorems()
+    if replay and '"IKQ"' in open(replay).read():
+        icases = envcheck.run_harness(ck, "c06", [["-replay", replay, "-n", "0"]])
+        if icases is not None:
+            shared = [c for c in icases if c.get("EncOK") and c["P"] != c["Q"] and c.get("IKQ") and c.get("IKQ") == c.get("IKP") and c.get("Suffix") == c.get("SuffixQ")]
+            if shared:
+                ck.violation(ck.replay_file("sharedik", {"what": "two different partitions get the same intermediate-key id", "Case": shared[0]}))
+            ck.cov.update({"evaluations": len(icases), "distinct_nontrivial": len(icases), "rule": "replay"})
+        return ck.finish()
     if replay and '"wrapv"' in open(replay).read():
         kms_section(ck, tier, seed, replay)
         ck.cov.update({"evaluations": 1, "distinct_nontrivial": 1, "rule": "replay"})
@@ -83,6 +91,18 @@ def main(tier, seed, replay):
     if not replay:
         if not kms_section(ck, tier, seed, None):
             return ck.finish()
+    # "a data key only under the partition's intermediate key": different partitions of one service/product must not share an intermediate
+    # key id (two million ids swept through the SDK's own id construction; a colliding pair is then run through real sessions)
+    if not replay:
+        icases = envcheck.run_harness(ck, "c06", [["-seed", str(seed), "-n", "1"]])
+        if icases is None:
+            return ck.finish()
+        shared = [c for c in icases if c.get("EncOK") and c["P"] != c["Q"] and c.get("IKQ") and c.get("IKQ") == c.get("IKP") and c.get("Suffix") == c.get("SuffixQ")]
+        ck.cov["partition_ids_swept_for_shared_intermediate_key_ids"] = 2000000
+        ck.oblige(not shared, "no two partitions of one service/product share an intermediate-key id (sweep of 2,000,000 ids)", str(shared[:1])[:1500])
+        if shared:
+            ck.violation(ck.replay_file("sharedik", {"what": "two different partitions get the same intermediate-key id: the data keys of the one are wrapped under the other's intermediate key" +
+                                                             (" and its session decrypts them" if shared[0].get("Foreign") == "plain" else ""), "Case": shared[0]}))
     # the key hierarchy under concurrency: goroutines of several partitions sharing the factory's caches (controlled schedules)
     if not replay:
         conccheck.run(ck, "keycache", tier, seed, None, n_quick=80, n_thorough=800, only="[hierarchy]")
